@@ -49,9 +49,12 @@ PROGRAMS = [
     "class C:\n    @d\n    def m(s): return 1\n    x = 'é'; y = (\n        2)",
     # blanks that are content, not trivia: inside string literals, f-string text / format specs, lines of a triple-quoted string
     "s = 'a b' + f'{x} y {z:> 4}'\nt = \'\'\'l1\n l2\'\'\'",
+    # block headers whose last child is not their last field in source order / contains the character that ends a header
+    "class K(m=M, *bs[1:]):\n    x = 1\nclass L(m={a: b}, *c[d:e]): pass",
+    "def f(a=lambda: 0, *b: t[1:], **c: {1: 2}) -> r[3:]:\n    return a\nwith x[1:] as y, z: pass",
 ]
 TEXTS = ['', ' ', 'x', '\n', ':', '#', '(', ')', 'pass', '\n    ', '=', 'if ', ';', ',', 'é', '\\\n', '"']
-TEXTS_BLANK = ['   ', '\t']  # only for the program whose blanks are content (the last one)
+TEXTS_BLANK = ['   ', '\t']  # only for the program whose blanks are content (program 20)
 TEXTS_EXTENT = ['', 'x', 'pass', 'p; q', '(p,\n q)', 'é', '#']
 for _p in PROGRAMS:
     ast.parse(_p)
@@ -350,7 +353,7 @@ def run_shard(desc, tier, res):
     if desc['kind'] == 'rect':
         for o1 in range(desc['from'], desc['to']):
             for o2 in range(o1, min(len(src), o1 + SPAN[tier]) + 1):
-                for text in TEXTS + (TEXTS_BLANK if pi == len(PROGRAMS) - 1 else []):
+                for text in TEXTS + (TEXTS_BLANK if pi == 20 else []):
                     if o1 == o2 and not text:
                         continue
                     run_rect(fst, pi, o1, o2, text, res)
